@@ -319,9 +319,9 @@ func containsNonLiteralExpressions(exprs []ast.Expression) bool {
 			}
 			continue
 		}
-		// Unary minus of a literal (negative number) is also acceptable
+		// Unary minus of a numeric literal (negative number) is also acceptable
 		if unary, ok := e.(*ast.UnaryExpr); ok && unary.Op == "-" {
-			if _, ok := unary.Operand.(*ast.Literal); ok {
+			if lit, ok := unary.Operand.(*ast.Literal); ok && (lit.Type == ast.LiteralInteger || lit.Type == ast.LiteralFloat) {
 				continue
 			}
 		}
@@ -432,9 +432,9 @@ func containsNonLiteralExpressionsRecursive(exprs []ast.Expression) bool {
 			}
 			continue
 		}
-		// Unary minus of a literal (negative number) is also acceptable
+		// Unary minus of a numeric literal (negative number) is also acceptable
 		if unary, ok := e.(*ast.UnaryExpr); ok && unary.Op == "-" {
-			if _, ok := unary.Operand.(*ast.Literal); ok {
+			if lit, ok := unary.Operand.(*ast.Literal); ok && (lit.Type == ast.LiteralInteger || lit.Type == ast.LiteralFloat) {
 				continue
 			}
 		}
